@@ -54,6 +54,8 @@ func init() {
 		"vPoolStale":   func(it *Interp, fr *frame, cc *ssa.CallCommon, a []Value) Value { it.PoolStale = int(it.concretize(a[0].(*Term))); return nil },
 		"vSameBacking": inSameBacking,
 		"vCountTrue":   inCountTrue,
+		"vPad":         inPad,
+		"vIdx":         inIdx,
 	}
 }
 
@@ -347,4 +349,30 @@ func (it *Interp) lookupStub(fn *ssa.Function) (StubFn, bool) {
 		// methods of instantiated or synthetic wrappers
 	}
 	return nil, false
+}
+
+// vPad(s string, w int) []byte: s followed by NULs up to w octets (s may have symbolic length).
+func inPad(it *Interp, fr *frame, cc *ssa.CallCommon, a []Value) Value {
+	v := it.viewOf(a[0])
+	w := it.intArg(a[1])
+	cells := make([]*Term, w)
+	z := it.St.Const(8, 0)
+	for k := 0; k < w; k++ {
+		if k >= v.max {
+			cells[k] = z
+			continue
+		}
+		c := it.cellAtI(v, k)
+		if !v.ln.IsConst() {
+			c = it.St.Ite(it.St.Ult(it.c64(int64(k)), v.ln), c, z)
+		} else if uint64(k) >= v.ln.Val {
+			c = z
+		}
+		cells[k] = c
+	}
+	return it.newByteSlice(cells)
+}
+
+func inIdx(it *Interp, fr *frame, cc *ssa.CallCommon, a []Value) Value {
+	return it.constStr(fmt.Sprintf("%s[%d]", it.strArg(a[0]), it.intArg(a[1])))
 }
